@@ -423,6 +423,26 @@ func findRegistry(w *World, f *Func) *fnRegistry {
 		}
 		cl, ok := unparen(rs.X).(*ast.CompositeLit)
 		if !ok {
+			// a local bound once to the literal and only ranged over
+			if id := identOf(rs.X); id != nil {
+				if v, isVar := info.Uses[id].(*types.Var); isVar {
+					x := w.expander(f)
+					if rhs, idx, _, okd := x.def(v); okd && rhs != nil && idx < 0 {
+						uses := 0
+						walkNoLit(f.Body, func(u ast.Node) bool {
+							if uid, ok := u.(*ast.Ident); ok && info.Uses[uid] == types.Object(v) {
+								uses++
+							}
+							return true
+						})
+						if uses == 1 {
+							cl, ok = unparen(rhs).(*ast.CompositeLit)
+						}
+					}
+				}
+			}
+		}
+		if !ok || cl == nil {
 			return true
 		}
 		tv, ok := info.Types[cl]
